@@ -314,6 +314,14 @@ def run_config(front, prefix, principal, restarts):
         r = dep.request("PUT", cal + "keep.ics", {"Content-Type": "text/calendar"}, ICS)
         if r["status"] not in (201, 204):
             return f"PUT into the discovered calendar {cal} -> {r['status']} {r['body'][:100]!r}"
+        # C01 / C13 under this front end: a repository's control directory is not a resource
+        for method, target in (("GET", cal + ".git/"), ("DELETE", cal + ".git"), ("MKCOL", cal + ".git/x/")):
+            rr = dep.request(method, target)
+            if rr["status"] in (200, 201, 204, 207):
+                return f"{method} {target} -> {rr['status']} (the collection's own git directory is served as a resource)"
+        g = dep.request("GET", cal + "keep.ics")
+        if g["status"] != 200:
+            return f"after requests on {cal}.git: GET {cal}keep.ics -> {g['status']}"
         for i, flags in enumerate(restarts):
             dep.start(flags)
             dep.found = {}
